@@ -109,6 +109,9 @@ def _run(prop, tier, replay, text, quick_frac):
         rep.add_tlc('StoneSemMC/' + scen, agg, {'Scenario': scen, 'OrderMode': sorted({j[3] for j in mine}),
                                                 'shards': [[j[1], j[2], j[3]] for j in mine]})
         rep.add_judged(agg)
+    if prop == 'C02':
+        # route attributes: the written value, else the schema default, else null, for own and inherited attributes of the schema
+        lit_stage(rep, 'C02', ('attr',))
     if prop == 'C01':
         lit_stage(rep, 'C01', ('exlit', 'attr', 'docref', 'annot', 'anndef', 'badtype'), quick=(tier == 'quick'))
         # default literals (StoneDefaultsMC!CompileLit): a field default compiles iff the documented rule accepts it
